@@ -35,7 +35,7 @@ def gen_program(rng, n):
                         "rmdir", "listdir", "stat", "exists", "utime", "oswrite", "copyfile", "touch", "walk", "makedirs",
                         "truncate", "seekwrite", "unlink_open", "readinto_big", "textio", "wplus", "link", "getsize",
                         "symlink", "symlink", "symlink_abs", "readlink", "lstat", "realpath", "utime_nofollow", "scan",
-                        "dirfsync", "filefsync"])
+                        "dirfsync", "filefsync", "sendfile"])
         a, b = rng.choice(NAMES), rng.choice(NAMES)
         prog.append((k, a, b, rng.randint(0, 20000), rng.randint(0, 255)))
     return prog
@@ -89,6 +89,13 @@ def run_program(root, prog):
             if k == "xcreate":
                 with open(pa, "xb") as f:
                     return f.write(b"new")
+            if k == "sendfile":
+                # sendfile(2) from an offset of one file to the start of another (what shutil.copyfile does on Linux)
+                with open(pa, "rb") as fi:
+                    with open(pb, "wb") as fo:
+                        sent = os.sendfile(fo.fileno(), fi.fileno(), n % 64, 1 << 20)
+                        sent2 = os.sendfile(fo.fileno(), fi.fileno(), None, 7)
+                        return (sent, sent2, os.fstat(fo.fileno()).st_size)
             if k == "remove":
                 return os.remove(pa)
             if k == "rename":
